@@ -6,6 +6,7 @@ package main
 import (
 	"fmt"
 	"os"
+	"runtime/debug"
 	"sort"
 )
 
@@ -16,6 +17,14 @@ var registry = map[string]subcmd{}
 func register(name string, f subcmd) { registry[name] = f }
 
 func main() {
+	// No background GC: sync.Pool is emptied by the collector, and several strategies of the
+	// library return history-dependent results (recorded findings); with the collector's timing
+	// out of the picture a run is a deterministic function of its flags.  Sub-commands that
+	// study GC (c13-api, c20) call runtime.GC() explicitly.
+	if os.Getenv("VERIF_KEEP_GC") == "" {
+		debug.SetGCPercent(-1)
+		debug.SetMemoryLimit(12 << 30)
+	}
 	if len(os.Args) < 2 {
 		usage()
 		os.Exit(2)
